@@ -374,10 +374,10 @@ func c13Worker(w *W) {
 func init() {
 	register(&Prop{
 		ID: "C13", Level: "exploration", MinDistinct: 5, Worker: c13Worker,
-		Rule: "RollingFileAppender built directly with 1 s / 2 s intervals, crossed by real boundaries (quick 3-4, thorough up to 10) in parallel child processes: continuous writers (4-16), bursts aligned just before each boundary (16 writers x 20 records), a sequential writer that also idles across whole intervals, Stop/Start cycles several times per second, Start on a directory pre-seeded with same-named files for the current and following seconds, and a mix with one-byte writes; " +
+		Rule: "RollingFileAppender built directly with 1 s / 2 s intervals, crossed by real boundaries (quick 3-4, thorough up to 10) in parallel child processes: continuous writers (4-16), bursts aligned just before each boundary (16 writers x 20 records), a sequential writer that also idles across whole intervals, Stop/Start cycles several times per second, Start on a directory pre-seeded with same-named files for the current and following seconds, a mix with one-byte writes, and a run in which one writer is stalled for more than two whole intervals inside Write; " +
 			"records are self-describing frames of 12 B - 64 KiB with client-side snapshot (length+CRC) and wall-clock start/end stamps; a guarded yield point holds half of the writers that loaded the current file within 12 ms of a boundary until another writer has completed the rotation (at most 300 ms after the boundary), and adds 0-4 ms inside rotate() (all below one interval). " +
 			"Oracle over the final directory: every record whole, exactly once, in exactly one file named <name>.<14 digits>; no record in a file whose name-time is after the write completed; sequential mode: a write started in interval k is not in a file older than interval k; pre-existing content preserved; one-byte writes counted. Non-trivial/distinct = distinct (mode, writers, interval, build flavour, files created) runs that held.",
-		Assumptions: []string{"delays injected at yield points stay <= 300 ms, below one rotation interval (the deferred-close design assumes a writer does not stall for two whole intervals; that schedule space is not explored)", "wall clock is monotone during a run; file-name times are compared at one-second resolution"},
+		Assumptions: []string{"delays injected at yield points stay <= 300 ms, below one rotation interval, except in the stalled-writer run, where one writer is held for 2.3 intervals between loading the current file and writing (two rotations pass)", "wall clock is monotone during a run; file-name times are compared at one-second resolution"},
 		Run: func(d *D) {
 			var specs []Spec
 			add := func(mode string, writers, intervalS int, fl string, n int64) {
